@@ -1042,6 +1042,14 @@ func (x *Exec) execInvoke(fr *Frame, st *State, cc *ssa.CallCommon, in ssa.Instr
 	key += "." + cc.Method.Name()
 	pos := in.Pos()
 	x.assert(st, "nil", "method call on nil interface "+x.src(in), mkNot(mkEq(mkSel(recv, 0), mkInt(0))), pos, nil)
+	if x.guardMode && x.dry == 0 {
+		// an object held in an interface-typed field declared `guard M: *f` is only used under M
+		if k, o := heapOfSelect(recv); k != "" {
+			if cl := x.env.con.guardSpec().Owner[k]; cl != nil && !x.freshRefs[o] {
+				x.assertClassW(st, cl, o, "call of "+key+" on the object in "+k, true, pos)
+			}
+		}
+	}
 	if con := x.env.con.Funcs[key]; con != nil {
 		con.used = true
 		sig := cc.Method.Type().(*types.Signature)
